@@ -128,7 +128,7 @@ def load_overlay(path, variants=frozenset()):
         elif ln.startswith('--- '):
             flush()
             h = ln[4:].strip()
-            m = re.fullmatch(r'(before|after|after-stmt)\s+<<(.*)>>', h)
+            m = re.fullmatch(r'(before|after|after-stmt)\s+<<(.*)>>(?:#(\d+))?', h)
             m2 = re.fullmatch(r'(loop|closure)\s+(\d+)\s+(outer|pre|spec|post|body-start|body-end)', h)
             m3 = re.fullmatch(r'closure\s+~<<(.*)>>\s+spec', h)
             m4 = re.fullmatch(r'closure\s+@([A-Za-z_][A-Za-z0-9_]*)#(\d+)(\??)\s+spec', h)
@@ -142,7 +142,8 @@ def load_overlay(path, variants=frozenset()):
                 # keyed by content: applies to the closure whose body contains the token sequence; optional
                 sec = ('closure~', m3.group(1), 'spec')
             elif m:
-                sec = (m.group(1), m.group(2), no)
+                # `<<frag>>#k`: the k-th occurrence of the fragment (without `#k` it must occur exactly once)
+                sec = (m.group(1), m.group(2) + ('\x00%s' % m.group(3) if m.group(3) is not None else ''), no)
             elif m2:
                 sec = (m2.group(1), int(m2.group(2)), m2.group(3))
             elif h in ('requires', 'ensures', 'decreases', 'body-start', 'body-end', 'tail-before'):
@@ -250,12 +251,14 @@ OPAQUE_MACROS = {'format': '__fmt_opaque', 'anyhow': 'anyhow'}
 
 
 def _format_captures(lit):
-    """identifiers captured implicitly by a format string literal (`{v}`, `{v:02X}`), first-occurrence order;
-    None if the literal uses something this scanner does not understand (positional indices, width args, ...)"""
+    """the placeholders of a format string literal in the order in which they occur: an identifier for a variable the
+    literal captures implicitly (`{v}`, `{v:02X}`; only its first occurrence counts), None for a positional `{}` /
+    `{:02X}`; returns None if the literal uses something this scanner does not understand (positional indices, width
+    args, ...)"""
     if not (lit.startswith('"') and lit.endswith('"')):
         return None
     body = lit[1:-1]
-    caps, i, n = [], 0, len(body)
+    slots, i, n = [], 0, len(body)
     while i < n:
         c = body[i]
         if c == '{':
@@ -268,10 +271,10 @@ def _format_captures(lit):
             inner = body[i + 1:j]
             name = inner.split(':', 1)[0].strip()
             if name == '':
-                pass
+                slots.append(None)
             elif re.fullmatch(r'[A-Za-z_][A-Za-z0-9_]*', name):
-                if name not in caps:
-                    caps.append(name)
+                if name not in slots:
+                    slots.append(name)
             else:
                 return None
             if '$' in inner or '*' in inner:
@@ -284,15 +287,15 @@ def _format_captures(lit):
                 continue
             return None
         i += 1
-    return caps
+    return slots
 
 
 def _opaque_messages(body, dropped):
     """T9: the TEXT of a message is not modelled.
     `anyhow!(..)` becomes a call of the opaque error constructor `anyhow()`; its arguments are dropped.
-    `format!("lit", a, b)` becomes `__fmtK("lit", &cap.., &(a), &(b))`: an opaque function of the literal, of the
-    variables the literal captures implicitly (`{v}`) and of the explicit arguments, all passed by reference as format!
-    does; its result is the uninterpreted `fmt_text(literal, [display text of each argument])`. A format! whose literal
+    `format!("lit", a, b)` becomes `__fmtK("lit", ..)`: an opaque function of the literal, of the variables the literal
+    captures implicitly (`{v}`) and of the explicit arguments, in the order of their placeholders in the literal, all
+    passed by reference as format! does; its result is the uninterpreted `fmt_text(literal, [display text of each argument])`. A format! whose literal
     this scanner does not understand falls back to `__fmt_opaque()` with the arguments dropped."""
     out = []
     i, n = 0, len(body)
@@ -328,15 +331,21 @@ def _opaque_messages(body, dropped):
                             parts.append(cur)
                         lit0 = [y for y in parts[0] if y.sig()] if parts else []
                         named = any(any(y.kind == 'punct' and y.text == '=' for y in p if y.sig()) for p in parts[1:])
-                        caps = _format_captures(lit0[0].text) if len(lit0) == 1 and lit0[0].kind == 'str' else None
-                        if caps is not None and not named and len(caps) + len(parts) - 1 <= 6:
+                        slots = _format_captures(lit0[0].text) if len(lit0) == 1 and lit0[0].kind == 'str' else None
+                        if (slots is not None and not named and len(slots) <= 6
+                                and sum(1 for c in slots if c is None) == len(parts) - 1):
+                            # the arguments in the order in which the literal shows them: captured variables and
+                            # explicit (positional) arguments interleaved as their placeholders are
                             args = [_opaque_messages(_trim(p), dropped) for p in parts[1:]]
-                            dropped.append(('T9', 'format! -> __fmt%d' % (len(caps) + len(args)), [t, body[j], body[k], body[e]] + commas))
-                            out += lit('__fmt%d(' % (len(caps) + len(args)), 'T9') + [lit0[0]]
-                            for c in caps:
-                                out += lit(', &%s' % c, 'T9')
-                            for a in args:
-                                out += lit(', &(', 'T9') + a + lit(')', 'T9')
+                            dropped.append(('T9', 'format! -> __fmt%d' % len(slots), [t, body[j], body[k], body[e]] + commas))
+                            out += lit('__fmt%d(' % len(slots), 'T9') + [lit0[0]]
+                            ai = 0
+                            for c in slots:
+                                if c is None:
+                                    out += lit(', &(', 'T9') + args[ai] + lit(')', 'T9')
+                                    ai += 1
+                                else:
+                                    out += lit(', &%s' % c, 'T9')
                             out += lit(')', 'T9')
                             done = True
                     if not done:
@@ -713,6 +722,10 @@ def _apply_anchor(toks, where, fragment, text, fname):
     """Splice `text` before / after the token sequence `fragment` (which must match exactly once), or after the end of
     the statement that contains it (`after-stmt`: the next `;` at the same bracket depth). `A>> | <<B` gives
     alternatives, tried in order: the first one that matches exactly once is used."""
+    ordinal = None
+    if '\x00' in fragment:
+        fragment, o = fragment.split('\x00', 1)
+        ordinal = int(o)
     alts = [a.strip() for a in fragment.split('>> | <<')]
     idx = [i for i, t in enumerate(toks) if t.sig() and t.origin in ('orig', 'T3', 'T8', 'T9')]
     texts = [toks[i].text for i in idx]
@@ -724,7 +737,10 @@ def _apply_anchor(toks, where, fragment, text, fname):
             raise Unsupported('%s: empty anchor fragment' % fname)
         hits = [s for s in range(0, len(texts) - len(frag) + 1) if texts[s:s + len(frag)] == frag]
         counts.append(len(hits))
-        if len(hits) == 1:
+        if ordinal is not None and len(hits) > ordinal:
+            chosen = (hits[ordinal], frag)
+            break
+        if ordinal is None and len(hits) == 1:
             chosen = (hits[0], frag)
             break
     if chosen is None:
@@ -942,6 +958,49 @@ def _map_params(spec, item):
     return c
 
 
+def _rename_outside_placeholders(text, mapping):
+    """whole-word renaming of overlay text that leaves the inside of `$xxx<..>#k` placeholders (code tokens) alone"""
+    store = []
+
+    def stash(m):
+        store.append(m.group(0))
+        return '\x01%d\x01' % (len(store) - 1)
+    for _round in range(8):
+        t2 = re.sub(r'\$[a-z]+<[^<>\x01]*(?:\x01\d+\x01[^<>\x01]*)*>(?:#\d+)?', stash, text)
+        if t2 == text:
+            break
+        text = t2
+    text = _rename_idents(text, mapping)
+    for _round in range(8):
+        t2 = re.sub(r'\x01(\d+)\x01', lambda m: store[int(m.group(1))], text)
+        if t2 == text:
+            break
+        text = t2
+    return text
+
+
+def _hygiene(spec, item):
+    """the names an overlay block declares for itself (`let ghost x`, `let x` inside proof blocks) must not capture a name
+    of the code: where the code (now) uses such a name, the overlay's own is renamed (`x__g`) throughout the block"""
+    if spec is None:
+        return spec
+    alltext = '\n'.join(list(spec.sections.values()) + [a[2] for a in spec.anchors])
+    own = set(re.findall(r'\blet\s+(?:ghost\s+)?(?:mut\s+)?([A-Za-z_][A-Za-z0-9_]*)\b', alltext))
+    own -= set(['ghost', 'mut'])
+    code = set(t.text for t in item.toks if t.kind == 'ident')
+    hit = sorted(own & code)
+    if not hit:
+        return spec
+    mapping = dict((n, n + '__g') for n in hit)
+    c = FnSpec(spec.file, spec.impl_re, spec.name)
+    c.tags, c.ctags, c.ret, c.lineno, c.optional, c.params = spec.tags, spec.ctags, spec.ret, spec.lineno, spec.optional, spec.params
+    c.sections = dict((k, _rename_outside_placeholders(v, mapping)) for k, v in spec.sections.items())
+    c.anchors = [(w, f, _rename_outside_placeholders(t, mapping), no) for (w, f, t, no) in spec.anchors]
+    c.foreign = getattr(spec, 'foreign', False)
+    c.orig = getattr(spec, 'orig', spec)
+    return c
+
+
 def _resolve_spec(spec, body, fname):
     """a copy of the overlay block with the $let placeholders resolved against this function body"""
     if spec is None:
@@ -966,6 +1025,7 @@ def extract_fn(item, file, impl_key, spec, twin_false=False):
     dropped = []
     orig_spec = spec
     spec = _map_params(spec, item)
+    spec = _hygiene(spec, item)
     if item.body_open is not None:
         spec = _resolve_spec(spec, item.toks[item.body_open + 1:item.body_close], item.name)
     _strip_lead(item, dropped)
